@@ -12,7 +12,13 @@ tie    : C (process level)  build/falco fmt -w FILE in a scratch directory under
              rename and after it (strace -e inject) - compared with the model: bytes of FILE, leftover
              temporary file, exit status.
 oracle : independent of the model: FILE afterwards is byte-identical to its content before or to the stdout
-         of `falco fmt FILE`; identical to before whenever the exit status is not 0; file mode preserved.
+         of `falco fmt FILE`; identical to before whenever the exit status is not 0; file mode preserved;
+         whenever the exit status is 0 the rewritten file parses (as falco fmt parses it) to the same projected
+         tree of declarations and statements as the original (implrun fmttree, the C03 projection) - the oracle
+         hypothesis `keeps` of C16_statements_never_lost / C16_success_keeps_statements.
+inputs : kinds of FILE CONTENT (file_kinds): declaration files, statement-only snippets with and without include
+         (middle, last, nested, several, with comments), include-only, include first then statements, mixed files in
+         both orders, blank-only, comment-only, syntax error / stray statement after a long valid prefix.
 """
 import os
 import re
@@ -207,6 +213,51 @@ def sweep_offsets(o, l):
     c = {0, 1, o - 1, o, o + 1, o // 2, (o + l) // 2, l // 2, l - 1, l, l + 1, min(o, l) + 1, max(o, l) - 1}
     return sorted(x for x in c if x >= 0)
 
+
+# --------------------------------------------------------------------------- kinds of FILE CONTENT
+def file_kinds(g, rng, thorough):
+    """what a user may point `fmt -w` at, besides a well-formed file of declarations: (bytes, label 'kind:...')"""
+    def stmts(n, include_at=()):
+        out = []
+        for i in range(n):
+            if i in include_at:
+                out.append('include "mod_%d";\n' % i)
+            else:
+                out.append(rng.choice(['set req.http.K%d = "%d";\n' % (i, i), 'unset req.http.K%d;\n' % i, 'log "k%d";\n' % i,
+                                       'if (req.http.K%d) {\n  set req.http.Y = "%d";\n}\n' % (i, i), 'declare local var.k%d STRING;\n' % i,
+                                       'call sub_%d;\n' % i, 'esi;\n', 'return(pass);\n', 'add resp.http.Set-Cookie = "k=%d";\n' % i]))
+        return out
+    decl = 'sub vcl_recv {\n  set req.http.A = "1";\n}\n'
+    k = []
+    k.append(("".join(stmts(4)), "kind:statements-only"))
+    k.append(("".join(stmts(5, include_at=(2,))), "kind:statements+include-middle"))
+    k.append(("".join(stmts(4, include_at=(3,))), "kind:statements+include-last"))
+    k.append(("".join(stmts(6, include_at=(1, 3, 4))), "kind:statements+several-includes"))
+    k.append(('set req.http.A = "1";\nif (req.http.A) {\n  include "mod_a";\n  log "x";\n}\ninclude "mod_b";\nlog "y";\n', "kind:statements+include-nested-and-top"))
+    k.append(('# header\nset req.http.A = "1"; # why\n// c\ninclude "m"; /* tail */\nlog "z";\n', "kind:statements+include+comments"))
+    k.append(('include "a";\ninclude "b";\n', "kind:include-only"))
+    k.append(('include "a";\nset req.http.A = "1";\nlog "x";\n', "kind:include-first-then-statements"))
+    k.append((decl + 'set req.http.B = "2";\ninclude "m";\n', "kind:mixed-declaration-then-statements"))
+    k.append(('set req.http.B = "2";\ninclude "m";\n' + decl, "kind:mixed-statements-then-declaration"))
+    k.append(('import x;\ninclude "a";\n' + decl + 'acl a {\n  "10.0.0.1";\n}\ninclude "b";\n', "kind:declarations+includes"))
+    k.append(("\n\n   \n\t\n", "kind:blank-only"))
+    k.append(("# only\n// comments\n/* in this\n   file */\n", "kind:comment-only"))
+    k.append((decl * 40 + 'sub broken {\n  set req.http.X = ;\n}\n', "kind:syntax-error-after-long-valid-prefix"))
+    k.append((decl * 40 + 'set req.http.Z = "z";\n', "kind:statement-after-long-valid-prefix"))
+    k.append(("".join(stmts(40, include_at=(17, 39))), "kind:long-statements+includes"))
+    for i in range(8 if thorough else 2):
+        n = rng.randint(2, 8)
+        inc = tuple(sorted(rng.sample(range(1, n), rng.randint(1, min(3, n - 1)))))
+        k.append(("".join(stmts(n, include_at=inc)), "kind:gen-statements+includes"))
+    for i in range(6 if thorough else 1):
+        body = g.snippet()
+        parts = body.split(";\n")
+        pos = rng.randrange(1, max(2, len(parts)))
+        k.append((";\n".join(parts[:pos] + ['include "gen_%d"' % i] + parts[pos:]), "kind:gen-snippet+include"))
+    for i in range(4 if thorough else 1):
+        k.append((rng.choice([g.program() + "\n" + g.snippet(), g.snippet() + g.program()]), "kind:gen-mixed"))
+    return [(t.encode(), l) for t, l in k]
+
 # --------------------------------------------------------------------------- one run
 class Case:
     def __init__(self, root, n, content, label):
@@ -265,6 +316,8 @@ def run(ctx):
                (b"sub vcl_recv { error; }\n", "error-without-code"),
                (b"set req.http.X = \"1\";\nif (req.http.A) { unset req.http.B; }\n", "snippet"),
                (("sub vcl_recv {\n" + "".join('  set req.http.X%d = "%s";\n' % (i, "v" * 40) for i in range(130)) + "}\n").encode(), "big-8k")]
+    kinds = file_kinds(g, rng, thorough)
+    inputs += kinds
     repo_files = [(data, path) for path, data in vclgen.repo_vcl_files(V.REPO) if 0 < len(data) < 6000]
     rng.shuffle(repo_files)
     inputs += [(d, "repo:" + os.path.relpath(p, V.REPO)) for d, p in repo_files[: (40 if thorough else 4)]]
@@ -287,6 +340,8 @@ def run(ctx):
     mreqs = []
     mchecks = []     # (description, replay, expected fields from the real run)
     distinct = set()
+    rewrites = {}    # (original, rewritten) -> replay of the first successful rewrite seen
+    kind_class = {}
 
     def model_req(proto, cls, out, content, faults, k):
         return "run %s %s %s %s %s %s" % (proto, cls, out.hex() if (cls == "ok" and out) else "-",
@@ -310,6 +365,11 @@ def run(ctx):
         classes[cls] = classes.get(cls, 0) + 1
         distinct.add(content)
         L = len(out)
+        if label.startswith("kind:"):
+            kind_class[label[5:]] = cls
+        if cls == "ok":
+            rewrites.setdefault((content, out), {"label": label, "scenario": "falco fmt FILE (stdout)", "content_hex": content.hex()[:6000],
+                                                 "formatted_hex": out.hex()[:6000], "class": cls})
 
         # ---- scenarios: (name, command prefix, strace inject options, chmod file, chmod dir, model faults, model k, killed)
         scen = [("plain", [], [], None, None, "", "all", False)]
@@ -340,7 +400,7 @@ def run(ctx):
             scen.append(("fsize-0", ["prlimit", "--fsize=0"], [], None, None, "", "all", False))
 
         if not thorough and n >= full_for:
-            keep = [scen[0]] + rng.sample(scen[1:], min(len(scen) - 1, 4))
+            keep = [scen[0]] + rng.sample(scen[1:], min(len(scen) - 1, 2 if label.startswith("kind:") else 4))
             scen = keep
         for name, prefix, inj, fmode, dmode, faults, k, killed in scen:
             p = case.fresh(mode=fmode or rng.choice([0o644, 0o600, 0o664, 0o755]))
@@ -381,6 +441,8 @@ def run(ctx):
                 ctx.violation("fmt -w reported success but FILE is not the output of falco fmt (%s, %s)" % (label, name), rep)
             elif rc2 == 0 and cls != "ok":
                 ctx.violation("fmt -w reported success on an input falco fmt rejects (%s, %s)" % (label, name), rep)
+            if rc2 == 0 and data is not None:
+                rewrites.setdefault((content, data), rep)
             if data is not None and mode1 != mode0:
                 ctx.violation("fmt -w changed the file mode %o -> %o (%s, %s)" % (mode0, mode1, label, name), rep)
             # ---- the model's prediction for this class / fault / crash point
@@ -410,6 +472,7 @@ def run(ctx):
         if rc != 0:
             continue
         O, L = len(content), len(out)
+        rewrites.setdefault((content, out), {"label": label, "scenario": "falco fmt FILE (stdout)", "content_hex": content.hex()[:4000], "class": "ok"})
         kstats["grows" if L > O else "shrinks" if L < O else "same_size"] += 1
         offs = sweep_offsets(O, L)
         if thorough and max(O, L) <= 160:
@@ -572,6 +635,30 @@ def run(ctx):
             ctx.violation("fmt -w with several files left extra files behind: %s" % sorted(os.listdir(d)), rep)
         os.chmod(os.path.join(d, names[k]), 0o644)
 
+    # ------------------------------------------------------------ a successful rewrite loses no statement
+    # the oracle hypothesis of C16_statements_never_lost / C16_success_keeps_statements, tied here: original and rewritten
+    # file are parsed the way falco fmt parses a file; the projected trees (C03 projection, default configuration) are equal
+    pairs = list(rewrites.items())
+    trep = V.run_batch([os.path.join(V.BUILD, "implrun"), "fmttree"],
+                       ["{} %s %s" % (c.hex() or "-", d_.hex() or "-") for (c, d_), _ in pairs], hang_s=30)
+    tree_same = 0
+    tree_statements = 0
+    for ((c, d_), rep), r in zip(pairs, trep):
+        evaluations += 1
+        if r is not None and r.startswith("same "):
+            tree_same += 1
+            tree_statements += int(r.split()[1])
+            continue
+        rep = dict(rep, rewritten_hex=d_.hex()[:6000], tree_oracle=(r or "no reply")[:3000])
+        if r is not None and r.startswith("diff "):
+            f = r.split(" ")
+            ctx.violation("fmt -w reported success but the rewritten file does not have the statements of the original: %s top-level "
+                          "declarations / statements before, %s after (%s, %s)" % (f[1], f[2], rep.get("label"), rep.get("scenario")), rep)
+        elif r is not None and r.startswith("new-perr"):
+            ctx.violation("fmt -w reported success but the rewritten file does not parse: %s (%s, %s)" % (r[9:120], rep.get("label"), rep.get("scenario")), rep)
+        else:
+            ctx.violation("tree oracle failed on a file falco fmt accepts: %s (%s)" % ((r or "no reply")[:120], rep.get("label")), rep)
+
     misfires = {}
     order_notes = set()
     mrep = V.run_batch([model], mreqs, hang_s=60)
@@ -636,6 +723,8 @@ def run(ctx):
         "inputs": len(inputs), "input_classes": classes,
         "scenarios": dict(sorted(scen_count.items())), "runs_with_faults": len(mreqs),
         "ops_agree": agree_ops, "state_agree": agree_state,
+        "file_kinds": kind_class, "successful_rewrites_compared_as_trees": len(pairs), "trees_same": tree_same,
+        "statements_in_compared_trees": tree_statements,
         "target_kinds_and_offset_sweep": kstats, "multi_file_invocations": multi_runs,
         "effect_free_order_differences": sorted(order_notes)[:5], "kill_injections_that_missed": misfires, "runs_retried_after_a_stall": retried_hangs,
         "generator_stats": dict(sorted(g.stats.items())[:40]),
@@ -643,5 +732,7 @@ def run(ctx):
     return ctx.finish(
         level="proof",
         rule="theorems of coq/Props/C16.v (every formatter outcome, fault assignment and crash point); correspondence at process level: "
-             "corpus + repository files + generated programs / snippets / truncated programs, each under every fault scenario "
+             "corpus + repository files + generated programs / snippets / truncated programs + kinds of file content (statement-only "
+             "with include, mixed, blank, comment-only, ...), each under every fault scenario; every successful rewrite compared "
+             "with the original as a tree "
              "(distinct = distinct file content)")
